@@ -258,22 +258,40 @@ class EvaluateRealDouble : public EvaluateDouble<RealDouble>
     RCP<const Basic> floor(const Basic &x) const override
     {
         SYMENGINE_ASSERT(is_a<RealDouble>(x))
+        double d = std::floor(down_cast<const RealDouble &>(x).i);
+        if (not std::isfinite(d)) {
+            // no integer to convert to (the conversion traps); inf and nan
+            // are their own floor
+            return number(d);
+        }
         integer_class i;
-        mp_set_d(i, std::floor(down_cast<const RealDouble &>(x).i));
+        mp_set_d(i, d);
         return integer(std::move(i));
     }
     RCP<const Basic> ceiling(const Basic &x) const override
     {
         SYMENGINE_ASSERT(is_a<RealDouble>(x))
+        double d = std::ceil(down_cast<const RealDouble &>(x).i);
+        if (not std::isfinite(d)) {
+            // no integer to convert to (the conversion traps); inf and nan
+            // are their own ceiling
+            return number(d);
+        }
         integer_class i;
-        mp_set_d(i, std::ceil(down_cast<const RealDouble &>(x).i));
+        mp_set_d(i, d);
         return integer(std::move(i));
     }
     RCP<const Basic> truncate(const Basic &x) const override
     {
         SYMENGINE_ASSERT(is_a<RealDouble>(x))
+        double d = std::trunc(down_cast<const RealDouble &>(x).i);
+        if (not std::isfinite(d)) {
+            // no integer to convert to (the conversion traps); inf and nan
+            // are their own truncate
+            return number(d);
+        }
         integer_class i;
-        mp_set_d(i, std::trunc(down_cast<const RealDouble &>(x).i));
+        mp_set_d(i, d);
         return integer(std::move(i));
     }
     RCP<const Basic> erf(const Basic &x) const override
@@ -343,27 +361,42 @@ class EvaluateComplexDouble : public EvaluateDouble<ComplexDouble>
     RCP<const Basic> floor(const Basic &x) const override
     {
         SYMENGINE_ASSERT(is_a<ComplexDouble>(x))
+        double dre = std::floor(down_cast<const ComplexDouble &>(x).i.real());
+        double dim = std::floor(down_cast<const ComplexDouble &>(x).i.imag());
+        if (not std::isfinite(dre) or not std::isfinite(dim)) {
+            return number(std::complex<double>(dre, dim));
+        }
         integer_class re, im;
-        mp_set_d(re, std::floor(down_cast<const ComplexDouble &>(x).i.real()));
-        mp_set_d(im, std::floor(down_cast<const ComplexDouble &>(x).i.imag()));
+        mp_set_d(re, dre);
+        mp_set_d(im, dim);
         return Complex::from_two_nums(*integer(std::move(re)),
                                       *integer(std::move(im)));
     }
     RCP<const Basic> ceiling(const Basic &x) const override
     {
         SYMENGINE_ASSERT(is_a<ComplexDouble>(x))
+        double dre = std::ceil(down_cast<const ComplexDouble &>(x).i.real());
+        double dim = std::ceil(down_cast<const ComplexDouble &>(x).i.imag());
+        if (not std::isfinite(dre) or not std::isfinite(dim)) {
+            return number(std::complex<double>(dre, dim));
+        }
         integer_class re, im;
-        mp_set_d(re, std::ceil(down_cast<const ComplexDouble &>(x).i.real()));
-        mp_set_d(im, std::ceil(down_cast<const ComplexDouble &>(x).i.imag()));
+        mp_set_d(re, dre);
+        mp_set_d(im, dim);
         return Complex::from_two_nums(*integer(std::move(re)),
                                       *integer(std::move(im)));
     }
     RCP<const Basic> truncate(const Basic &x) const override
     {
         SYMENGINE_ASSERT(is_a<ComplexDouble>(x))
+        double dre = std::trunc(down_cast<const ComplexDouble &>(x).i.real());
+        double dim = std::trunc(down_cast<const ComplexDouble &>(x).i.imag());
+        if (not std::isfinite(dre) or not std::isfinite(dim)) {
+            return number(std::complex<double>(dre, dim));
+        }
         integer_class re, im;
-        mp_set_d(re, std::trunc(down_cast<const ComplexDouble &>(x).i.real()));
-        mp_set_d(im, std::trunc(down_cast<const ComplexDouble &>(x).i.imag()));
+        mp_set_d(re, dre);
+        mp_set_d(im, dim);
         return Complex::from_two_nums(*integer(std::move(re)),
                                       *integer(std::move(im)));
     }
